@@ -155,7 +155,7 @@ def api_table(chk, F, rule, cfg):
         fns = [f for f in F.fns.values() if re.search(rx, f.defp)]
         chk.ob(rule, 'builder API function %s exists' % rx, len(fns) == 1, config=cfg, site='anchor:%s' % rx, unrecognised=True, what='anchor %s' % rx, found=[f.defp for f in fns])
         for fn in fns:
-            for p in symex.Interp(F).run(fn):
+            for p in symex.Interp(F, inline=module_private).run(fn):
                 qs = list(p.calls(r'DynBuilderWrapper::quantify$'))
                 nq += len(qs)
                 ok = len(qs) == 1 and strip(qs[0].data[2][1]) == times and strip(qs[0].data[2][2])[0] == 'agg' and strip(qs[0].data[2][2])[3] == ex
@@ -169,7 +169,7 @@ def api_table(chk, F, rule, cfg):
     # then(): add_to_minimum(0, AtLeastPlusOne), no quantify
     th = [f for f in F.fns.values() if re.search(r'^build::QuantifiedResponse::<.*>::then$', f.defp)]
     for fn in th:
-        for p in symex.Interp(F).run(fn):
+        for p in symex.Interp(F, inline=module_private).run(fn):
             a = list(p.calls(r'CallCountExpectation::add_to_minimum$'))
             ok = len(a) == 1 and strip(a[0].data[2][1]) == ('c', 0) and strip(a[0].data[2][2])[3] == 'AtLeastPlusOne' and not p.called(r'DynBuilderWrapper::quantify$')
             nq += len(a)
@@ -184,7 +184,7 @@ def api_table(chk, F, rule, cfg):
             chk.ob(rule, '%s::%s exists' % (ty, name), len(fns) == 1, config=cfg, site='anchor:%s::%s' % (ty, name), unrecognised=True, what='anchor')
             for fn in fns:
                 nresp += 1
-                for p in symex.Interp(F).run(fn):
+                for p in symex.Interp(F, inline=module_private).run(fn):
                     pushes = [e for e in p.calls(r'DynBuilderWrapper::(push_returner_result|push_responder)$')]
                     qz = list(p.calls(r'::quantify$'))
                     ok = len(pushes) == 1 and not any(re.search(r'DynBuilderWrapper::quantify$', e.data[1]) for e in qz)
